@@ -97,17 +97,22 @@ def at_scale_case(ctx, g, rng):
 
     api, S = ctx.api, probe.S
     n = rng.choice([3000, 20000]) if ctx.tier == "thorough" else 1200
-    hosts = [f"http://h{i}/" + rng.choice(["", "a_", "b#", "c/d/"]) for i in range(rng.randint(5, 60))]
+    # every other case at scale is *concentrated*: one to three prefixes with several hundred distinct identifiers each
+    # and a cutoff in the hundreds (a cap on the identifiers remembered per prefix, a counter that saturates - seed C19-W)
+    concentrated = (g // (307 if ctx.tier == "quick" else 2459)) % 2 == 0
+    hosts = [f"http://h{i}/" + rng.choice(["", "a_", "b#", "c/d/"]) for i in range(rng.randint(1, 3) if concentrated else rng.randint(5, 60))]
     uris = [rng.choice(hosts) + rng.choice(["", "x"]) + str(rng.randint(0, 400)) for _ in range(n)]
     uris += [rng.choice(hosts) + "bad-tail!" for _ in range(20)]
     conv = None
     if rng.random() < 0.4:
         with probe.monitor_mode():
             conv = api.Converter([api.Record(prefix="k", uri_prefix=hosts[0]), api.Record(prefix="j", uri_prefix=hosts[-1] + "x")])
-    kw = {"cutoff": rng.choice([None, 1, 3, 50])}
+    kw = {"cutoff": rng.choice([257, 300, 340, 1000, None]) if concentrated else rng.choice([None, 1, 3, 50])}
     if conv is not None:
         kw["converter"] = conv
     o = call(curies.discover, rng.choice([uris, set(uris), iter(uris)]), **kw)
+    if concentrated:
+        S.counters["wl:at-scale:concentrated"] += 1
     if o[0] == "ret":
         for u in rng.sample(uris, k=20):
             call(o[1].compress, u)
